@@ -20,6 +20,7 @@ class Frame:
         self.fspec = fspec
         self.locals = {}
         self.loop_ord = 0
+        self.loops_from = None     # frame whose contract numbers the loops (functions inlined for want of a contract)
 
 
 LOG_NAMES = {'_logger', 'LOGGER', 'logger', '__logger', '_Messenger__logger'}
@@ -173,7 +174,19 @@ class CallMixin:
             return self.inline_call(module, ci, fdef, args, kwargs)
         if ci is not None and self.is_exception_class(ci) and fdef.name == '__init__':
             return self.inline_call(module, ci, fdef, args, kwargs)
+        if fdef is not None and not self.is_generator(fdef) and self.depth < 4:
+            # a repository function nobody wrote a contract for (typically a method extracted from a verified
+            # one): its body is executed in place; loops inside it take the calling contract's loop entries in
+            # execution order
+            self.notes.append('inlined for want of a contract: %s' % key)
+            return self.inline_call(module, ci, fdef, args, kwargs, loops_from=self.frame.loops_from or self.frame)
         raise Unsupported('call of %s: no contract and not listed INLINE' % key)
+
+    def is_generator(self, fdef):
+        for n in ast.walk(fdef):
+            if isinstance(n, (ast.Yield, ast.YieldFrom)):
+                return True
+        return False
 
     def bind_params(self, fdef, args, kwargs, defaults_frame=None):
         a = fdef.args
@@ -211,11 +224,12 @@ class CallMixin:
                 bound[x.arg] = self.ev(d)
         return bound
 
-    def inline_call(self, module, ci, fdef, args, kwargs, closure=None):
+    def inline_call(self, module, ci, fdef, args, kwargs, closure=None, loops_from=None):
         if self.depth > 12:
             raise Unsupported('inline depth exceeded at %s' % fdef.name)
         bound = self.bind_params(fdef, args, kwargs)
         fr = Frame(fdef.name, module, ci, fdef, None)
+        fr.loops_from = loops_from
         if closure:
             fr.locals.update(closure)
         fr.locals.update(bound)
@@ -335,7 +349,8 @@ class CallMixin:
         env['result'] = result
         if rt is not TNone:
             self.assume_wf(result)
-        for c in list(fs.ensures) + ([] if fs.no_inv_ensures else cinvs):
+        extra = fs.case_ensures.get((case or {}).get('name'), [])
+        for c in list(fs.ensures) + list(extra) + ([] if fs.no_inv_ensures else cinvs):
             self.assume(truthy(self.spec_eval(c.node, env, old_state=pre, old_locals=pre_locals)))
         return result
 
